@@ -1,3 +1,6 @@
-  | "na", rest -> na_run_enc rest
-  | "nascan", rest -> na_scan_enc rest
-  | "naneeds", rest -> na_needs_enc rest
+  | "na", rest -> na_run_enc false true rest
+  | "nascan", rest -> na_scan_enc true rest
+  | "naneeds", rest -> na_needs_enc true rest
+  | "nav", e :: k :: rest -> na_run_enc (bool_of_n e) (bool_of_n k) rest
+  | "nascanv", k :: rest -> na_scan_enc (bool_of_n k) rest
+  | "naneedsv", k :: rest -> na_needs_enc (bool_of_n k) rest
